@@ -372,6 +372,60 @@ func runC19(r *Run) {
 		}
 	}
 	r.Floor("R4", "iterator callbacks on export paths", nCbE, 1)
+	// collecting loops on the export path run to completion: a loop that appends to a list can be left only through
+	// its own termination test (iterator.Valid() / index bound) or by a panic — a break on a missing id or a full page
+	// truncates the export
+	nLoopsE := 0
+	for _, gm := range genModules {
+		expF, ok := P.FnOK(gm.Export)
+		if !ok {
+			continue
+		}
+		for fn := range moduleReach(P, expF, 4) {
+			for _, hd := range fn.Blocks {
+				if !isLoopHeader(hd) {
+					continue
+				}
+				body := loopBody(hd)
+				collects := false
+				for b := range body {
+					for _, in := range b.Instrs {
+						if c, ok := in.(*ssa.Call); ok {
+							if bi, ok := c.Call.Value.(*ssa.Builtin); ok && bi.Name() == "append" {
+								collects = true
+							}
+						}
+					}
+				}
+				if !collects {
+					continue
+				}
+				nLoopsE++
+				early := ""
+				for b := range body {
+					if b == hd {
+						continue
+					}
+					for _, sc := range b.Succs {
+						if body[sc] {
+							continue
+						}
+						// leaving the loop from inside the body: allowed only towards a panic / failure
+						leadsToReturn := false
+						if w := (PathQuery{Fn: fn, StartBlock: sc, Target: func(in ssa.Instruction) bool { _, ok := in.(*ssa.Return); return ok }}).Search(); w != nil {
+							leadsToReturn = true
+						}
+						if leadsToReturn {
+							early = P.Pos(instrPos(b.Instrs[len(b.Instrs)-1]))
+						}
+					}
+				}
+				r.Check(early == "", "R4", fmt.Sprintf("x/%s#%s/loop@%s#runs-to-completion", gm.Name, fnID(fn), hd.Comment), P.Pos(instrPos(hd.Instrs[0])), "the collecting loop is left only through its termination test",
+					"a loop that collects exported entries can be left from inside its body (break / early return at "+early+"): entries after that point are missing from the exported genesis although they are in the store")
+			}
+		}
+	}
+	r.Floor("R4", "collecting loops on export paths", nLoopsE, 1)
 
 	// ---------- R5: the import writes every element completely ----------
 	r.Rule("R5", "PATH.import-per-element: in a loop of a module's InitGenesis over a GenesisState field, each store-writing call of the loop body (a Set*/set*/Init* keeper method) is performed on every iteration — from the start of the body the next iteration is reachable only through it (panics/failure exits excepted); an element's record, its indexes, its code and its storage are restored unconditionally")
